@@ -37,8 +37,11 @@ type CaseC struct {
 func replaceStrings(t *rapid.T, v cfggen.Val) cfggen.Val {
 	switch v.K {
 	case "s":
-		if rapid.IntRange(0, 2).Draw(t, "rawstring") == 2 {
+		switch rapid.IntRange(0, 5).Draw(t, "rawstring") {
+		case 4:
 			return cfggen.Str(rapid.StringN(0, 8, 32).Draw(t, "string"))
+		case 5:
+			return cfggen.Str(rapid.SampledFrom([]string{"$${", "%%{", "$${x}", "a$${", "$$${", "$$", "%%", "$%{", "%${", "${", "%{", "\\${", "\\u00e9", "\\x41", "\\"}).Draw(t, "tricky"))
 		}
 	case "l":
 		out := cfggen.Val{K: "l"}
